@@ -612,6 +612,34 @@ def op_derived(res, choice, key):
         res.outcomes["derived-ok|" + key] += 1
 
 
+def op_derived_seq(res, choices, key):
+    """ONE registry dict whose base units are re-assigned in place between the requests: every answer is the derived unit of
+    the registry as it stands (the whole sequence is one case)"""
+    cu = E()["cu"]
+    reg = dict(A.registry_real(tuple(choices[0]), E()["u"]))
+    for n, choice in enumerate(choices):
+        choice = tuple(choice)
+        if n:
+            for k_, v_ in A.registry_real(choice, E()["u"]).items():
+                reg[k_] = v_  # in place, key by key
+        regm = A.registry_model(choice)
+        ev = A.DERIVED[key] if key in A.DERIVED else tuple(1 if d == key else 0 for d in A.DIMS)
+        dm = A.in_registry(ev, regm)
+        case = dict(op="derived_seq", args=[[list(c) for c in choices], key])
+        res.states += 1
+        res.transitions += 1
+        res.nontrivial += 1
+        res.evaluations += 1
+        got = _obs(lambda: cu.get_derived_unit(reg, key))
+        m, e = (None, None) if _isexc(got) else A.si(got)
+        if e != dm.e or not A.close(m, float(dm.f), RTOL):
+            res.outcomes["derived-seq-WRONG"] += 1
+            res.violation("C09|get_derived_unit|%s|registry-edited-in-place|wrong-unit" % key, "get_derived_unit(reg, %r) after %d in-place change(s) of reg (now %s) = %r; the definition gives %r x SI %r"
+                          % (key, n, [A.UNITS[A.DIMS[i]][c][0] for i, c in enumerate(choice)], got, float(dm.f), dm.e), case, repr(got), [float(dm.f), list(dm.e)])
+            return
+        res.outcomes["derived-seq-ok"] += 1
+
+
 def op_hr(res, choice, scale):
     """human-readable round trip of a registry: every entry comes back with ratio 1 to the original"""
     cu = E()["cu"]
@@ -673,6 +701,11 @@ def _layer_D(res, j, J):
         for scale in ("1", "1/10"):
             op_hr(res, choice, scale)
     if j == 0:
+        regs = A.registries()
+        picks = [regs[0], regs[len(regs) // 3], regs[-1], regs[len(regs) // 2]]
+        for a_, b_ in itertools.permutations(picks, 2):
+            for key in keys:
+                op_derived_seq(res, [a_, b_], key)
         for key in keys:
             res.states += 1
             res.evaluations += 1
@@ -1085,6 +1118,12 @@ def op_concat(res, fam, idxs, ndim, axis):
         vals = [_HV[(2 * pos) % 6], _HV[(2 * pos + 1) % 6]]
         a = np.array([float(v) for v in vals])
         r = np.array([float(v * um.f) for v in vals])
+        if ndim == 0:
+            # the piece is a plain list of two scalar quantities written in two different units of the family
+            d2, ur2, um2 = units[(i + 1) % len(units)]
+            arrays.append([float(vals[0]) * ur, float(vals[1]) * ur2])
+            ref.append(np.array([float(vals[0] * um.f), float(vals[1] * um2.f)]))
+            continue
         if ndim == 2:
             a, r = a.reshape(1, 2), r.reshape(1, 2)
         arrays.append(a * ur)
@@ -1348,6 +1387,7 @@ def _layer_H1(res, helper):
             for idxs in itertools.product(n, repeat=2):
                 for axis in (0, 1):
                     op_concat(res, name, idxs, 2, axis)
+                op_concat(res, name, idxs, 0, 0)
     elif helper == "tile":
         for name, ev, units in fams:
             n = range(len(units))
@@ -1431,7 +1471,7 @@ def run_chunk(chunk, tier):
 
 
 OPS = dict(conv=op_conv, triple=op_triple, dim=op_dim, incompat=op_incompat, zero=op_zero, zero_dim=op_zero_dim, zero_incompat=op_zero_incompat,
-           reg=op_reg, derived=op_derived, hr=op_hr, derived_none=op_derived_none, hr_none=op_hr_none, cont=op_cont,
+           reg=op_reg, derived=op_derived, derived_seq=op_derived_seq, hr=op_hr, derived_none=op_derived_none, hr_none=op_hr_none, cont=op_cont,
            backend_ratio=op_backend_ratio, backend_dim=op_backend_dim, chem=op_chem, chem_pair=op_chem_pair,
            spacing=op_spacing, spacing_plain=op_spacing_plain, concat=op_concat, tile=op_tile, uniform=op_uniform, allclose=op_allclose,
            polyfit=op_polyfit, polyval=op_polyval, cmp=op_cmp)
